@@ -76,6 +76,14 @@ CONTRACTS = {
                    'modifies_objects': ['self'], 'modifies_fields': {'self': ['_clauses', '_numvar']}}},
         note="'!=' branch (in-place flips of the literal list) is outside the proved subset: requires op != '!='; bounded tier covers it",
     ),
+    # parity: odd number of true literals iff constant == 1 (any other constant means "even", as the code documents {0,1})
+    (L, 'CNFLinear.add_parity'): dict(
+        builder('(count(a, lits) % 2 == 1) == (constant == 1)'),
+        params={'lits': 'iseq', 'constant': 'int', 'check': 'bool'},
+        loops={0: {'ghost_at_entry': {'C0': 'self._clauses'}, 'ghost_at_entry_vals': {'NV0': 'self._numvar'},
+                   'inv': ['self._clauses == capp(C0, pfilter(lits, desired_sign, _it))', 'self._numvar == NV0'],
+                   'modifies_objects': ['self'], 'modifies_fields': {'self': ['_clauses', '_numvar']}}},
+    ),
     (L, 'CNFLinear.cardinality_geq'): dict(builder('count(a, lits) >= value'), params={'lits': 'iseq', 'value': 'int', 'check': 'bool'}),
     (L, 'CNFLinear.cardinality_leq'): dict(builder('count(a, lits) <= value'), params={'lits': 'iseq', 'value': 'int', 'check': 'bool'}),
     (L, 'CNFLinear.cardinality_eq'): dict(builder('count(a, lits) == value'), params={'lits': 'iseq', 'value': 'int', 'check': 'bool'}),
